@@ -63,6 +63,7 @@ type half struct {
 	cfg       LinkCfg
 	buf       []byte // delivered, not yet read
 	inflight  int    // bytes scheduled for delivery
+	ctl       int    // FIN/RST segments scheduled for delivery
 	lastAt    time.Time
 	written   int // bytes accepted from the writer
 	delivered int
@@ -111,7 +112,7 @@ func (c *Conn) LocalAddr() net.Addr  { return c.local }
 func (c *Conn) RemoteAddr() net.Addr { return c.remote }
 
 // PeerPending reports bytes this end wrote that the other end has not read yet.
-func (c *Conn) PeerPending() int { return len(c.out.buf) + c.out.inflight }
+func (c *Conn) PeerPending() int { return len(c.out.buf) + c.out.inflight + c.out.ctl }
 
 // SetOutLink changes the configuration of the direction this end writes.
 func (c *Conn) SetOutLink(cfg LinkCfg) { c.out.cfg = cfg }
@@ -127,7 +128,7 @@ func (c *Conn) BytesConsumed() int { return c.in.consumed }
 
 // Pending reports bytes written to this end's input that were not read yet
 // (delivered or in flight).
-func (c *Conn) Pending() int { return len(c.in.buf) + c.in.inflight }
+func (c *Conn) Pending() int { return len(c.in.buf) + c.in.inflight + c.in.ctl }
 
 type timeoutError struct{}
 
@@ -329,12 +330,18 @@ func (c *Conn) schedule(sg segment, n int) {
 	}
 	h.lastAt = at
 	h.inflight += n
+	if sg.fin || sg.rst {
+		h.ctl++
+	}
 	s.After(at.Sub(now), func() { c.deliver(sg, n) })
 }
 
 func (c *Conn) deliver(sg segment, n int) {
 	h := c.out
 	h.inflight -= n
+	if sg.fin || sg.rst {
+		h.ctl--
+	}
 	if h.stalled {
 		h.held = append(h.held, sg)
 		h.inflight += n
